@@ -1346,6 +1346,19 @@ pub fn handle_trailer(
         max_decoded <= max_header_list_size as usize && max_decoded <= MAX_TRAILER_BYTES,
         "trailer budget is the min of MAX_HEADER_LIST_SIZE and the carve-out cap"
     );
+    // The body ends where the trailer section starts. When the message is
+    // re-framed as HTTP/1.1 chunked (no content-length on the H2 side), the H1
+    // serializer must write the last-chunk `0\r\n` before the trailer fields
+    // (RFC 9112 §7.1), which it does on `end_body`; DATA frames only push that
+    // flag with END_STREAM, which trailers replace. The H2 converter ignores it.
+    if kawa.body_size == BodySize::Chunked {
+        kawa.push_block(Block::Flags(Flags {
+            end_body: true,
+            end_chunk: false,
+            end_header: false,
+            end_stream: false,
+        }));
+    }
     let decode_status = decoder.decode_with_cb(input, |k, v| {
         if invalid_trailers || budget_exceeded || field_limit_exceeded {
             return;
